@@ -93,6 +93,18 @@ func symbolCommands(sym string, i int) [][]string {
 		return [][]string{{"multi"}, {"SET", "k1", "u" + p + "a"}, {"LPUSH", "l1", "u" + p + "b"}, {"SET", "k2", "u" + p + "c"}, {"exec"}}
 	case "ts":
 		return [][]string{{"MULTI"}, {"SELECT", "1"}, {"SET", "k1", "s" + p}, {"EXEC"}}
+	case "tb":
+		// a source transaction that switches INTO the black-listed database: what Redis propagates for a
+		// MULTI/script writing in an allowed database first and in the black-listed one last (the EXEC
+		// travels while the black-listed database is selected; the stream stays there afterwards)
+		return [][]string{{"MULTI"}, {"SET", "k1", "c" + p + "a"}, {"SELECT", strconv.Itoa(blackDB)}, {"SET", "k2", "c" + p + "b"}, {"EXEC"}}
+	case "tb2":
+		// a source transaction that visits the black-listed database and leaves it again before its EXEC
+		return [][]string{{"MULTI"}, {"SELECT", strconv.Itoa(blackDB)}, {"SET", "k2", "c" + p + "c"}, {"SELECT", "0"}, {"SET", "k1", "c" + p + "d"}, {"EXEC"}}
+	case "to":
+		// a source transaction that switches to database 0 in its middle: after "sb"/"tb" its MULTI travels
+		// while the black-listed database is selected and its EXEC does not
+		return [][]string{{"MULTI"}, {"SET", "k2", "o" + p + "a"}, {"SELECT", "0"}, {"SET", "k1", "o" + p + "b"}, {"EXEC"}}
 	case "wn":
 		// a command a healthy target answers with a nil reply (the list does not exist)
 		return [][]string{{"RPOPLPUSH", "l9", "l8:" + p}}
